@@ -61,7 +61,8 @@ func A() {
 	_ = y
 	if x > 0 { //«c4»
 		x++ // A-INNER
-	} // A-IFEND
+	} //«c10»
+	x = 7 // A-AFTER-IF
 	//«c5»
 } // A-END
 
@@ -97,8 +98,8 @@ func ZZC07SpellingsStmt() { c07Scopes(2) }
 
 func c07Scopes(spellAt int) {
 	holes := []nd.Hole{}
-	sp := make([]string, 10)
-	names := []string{"c0", "c1", "c2", "c3", "c4", "c5", "c6", "c7", "c8", "c9"}
+	sp := make([]string, 11)
+	names := []string{"c0", "c1", "c2", "c3", "c4", "c5", "c6", "c7", "c8", "c9", "c10"}
 	active := 0
 	for i, n := range names {
 		switch {
@@ -113,7 +114,7 @@ func c07Scopes(spellAt int) {
 		holes = append(holes, nd.Hole{Name: n, Value: sp[i]})
 		active += nd.IteInt(nd.HasPrefix(sp[i], " @ignore "), 1, 0)
 	}
-	nd.Assume(active <= 2) // stated bound: at most two markers at a time (all 10 placements, all pairs)
+	nd.Assume(active <= 2) // stated bound: at most two markers at a time (all 11 placements, all pairs)
 	files := []nd.File{{Pkg: "zzmod/d", Name: "d.go", Src: c07Src}}
 	prog := nd.LoadProgram(files, holes)
 	var raw []analysis.Diagnostic
@@ -135,6 +136,7 @@ func c07Scopes(spellAt int) {
 		{sp[7], lineStart("//«c7»"), off("//«c7»") + width},          // trailing a struct field
 		{sp[8], off("//«c8»"), off("b int // S-B") + len("b int")},    // alone before a struct field: the field
 		{sp[9], off("//«c9»"), off("var q int // B-VAR") + len("var q int")}, // alone before a local declaration (the comment is its Doc)
+		{sp[10], lineStart("//«c10»"), off("//«c10»") + width},       // trailing a line that only closes a block: its own line
 	}
 	code := nd.Enum("q_code", "IMM01", "IMM02", "CTOR02", "CTOR01", "TONL01", "PKGO03", "IMPL02")
 	qoff := nd.Int("q_offset")
@@ -166,6 +168,50 @@ type T struct {
 // @packageonly w
 func Only() {}
 `
+
+const c07SrcRU2 = `package u
+
+import "zzmod/d"
+
+type Holder struct {
+	h d.Helper //«j1»
+}
+
+func Param(h d.Helper) { //«j2»
+}
+
+func Lit() {
+	_ = d.Helper{} // J-LIT
+}
+`
+
+// ZZC07RereportField: the first uses of the once-per-file type are a struct field and a parameter (other AST paths than
+// literals and var declarations); a suppressed use must not swallow the report.
+func ZZC07RereportField() {
+	j1 := nd.EnumPad("j1", " @ignore TONL01", " @ignore PKGO01", " @ignore ALL", " plain")
+	j2 := nd.EnumPad("j2", " @ignore TONL", " @ignore PKGO", " plain")
+	holes := []nd.Hole{{"j1", j1}, {"j2", j2}}
+	files := []nd.File{{Pkg: "zzmod/d", Name: "d.go", Src: c07SrcRD}, {Pkg: "zzmod/u", Name: "u.go", Src: c07SrcRU2}}
+	prog := nd.LoadProgram(files, holes)
+	cfg := config.Default()
+	rd := Analyze(prog, cfg, "zzmod/d", Facts{}, "tonl", "pkgo")
+	ru := Analyze(prog, cfg, "zzmod/u", Facts{"zzmod/d": &rd.Ann}, "tonl", "pkgo")
+	s1T := nd.Or(nd.HasPrefix(j1, " @ignore TONL01"), nd.HasPrefix(j1, " @ignore ALL"))
+	s1P := nd.Or(nd.HasPrefix(j1, " @ignore PKGO01"), nd.HasPrefix(j1, " @ignore ALL"))
+	s2T := nd.HasPrefix(j2, " @ignore TONL")
+	s2P := nd.HasPrefix(j2, " @ignore PKGO")
+	fu := "/zz/zzmod/u/u.go"
+	src := c07SrcRU2
+	l1, l2, l3 := nd.LineOf(src, "//«j1»"), nd.LineOf(src, "//«j2»"), nd.LineOf(src, "J-LIT")
+	CheckExact(ru.Diags, []Expect{
+		{fu, l1, "TONL01", nd.Not(s1T)},
+		{fu, l2, "TONL01", nd.And(s1T, nd.Not(s2T))},
+		{fu, l3, "TONL01", nd.And(s1T, s2T)},
+		{fu, l1, "PKGO01", nd.Not(s1P)},
+		{fu, l2, "PKGO01", nd.And(s1P, nd.Not(s2P))},
+		{fu, l3, "PKGO01", nd.And(s1P, s2P)},
+	}, "C07 re-reporting when the first uses are a field and a parameter")
+}
 
 const c07SrcRU = `package u
 
